@@ -9,6 +9,7 @@ import GeoVerif.Driver.Ws
 import GeoVerif.Driver.Life
 import GeoVerif.Driver.Pair
 import GeoVerif.Driver.Valid
+import GeoVerif.Driver.UiFile
 open Lean GeoVerif.Driver
 
 structure DSt where
@@ -32,6 +33,7 @@ def stepLine (st : DSt) (line : String) : DSt × String :=
     | "ws" => let (s, o) := WsD.handle st.ws j; ({ st with ws := s }, o.compress)
     | "pair" => (st, (PairD.handle j).compress)
     | "valid" => (st, (ValidD.handle j).compress)
+    | "uifile" => (st, (UiFileD.handle j).compress)
     | "life" => let (s, o) := LifeD.handle st.life j; ({ st with life := s }, o.compress)
     | _ => (st, "\"bad-model\"")
 
